@@ -1,1 +1,127 @@
-fn main(){}
+//! Instrumented fake code generator.
+//!
+//! slicec starts generators as `Command::new(path)` without arguments, so the behaviour is
+//! selected through a side file `<argv0>.cfg` (line based `key=value`):
+//!
+//!   read=all|none|<n>        how much of stdin to consume before acting (default all)
+//!   stderr_hex=<hex>         bytes to write to stderr
+//!   reply_hex=<hex>          bytes to write to stdout (default: 00 00 = no files, no diagnostics)
+//!   exit=<code>              exit status (default 0)
+//!   signal=<n>               kill self with this signal instead of exiting
+//!   sleep_ms=<n>             sleep before replying
+//!
+//! Every invocation appends one line to `<argv0>.log` and saves what it read to `<argv0>.stdin`
+//! (`.stdin.<k>` for the k-th invocation, k >= 2).
+
+use std::io::{Read, Write};
+
+fn from_hex(s: &str) -> Vec<u8> {
+    let s = s.trim().as_bytes();
+    let val = |c: u8| -> u8 {
+        match c {
+            b'0'..=b'9' => c - b'0',
+            b'a'..=b'f' => c - b'a' + 10,
+            b'A'..=b'F' => c - b'A' + 10,
+            _ => 0,
+        }
+    };
+    let mut out = Vec::new();
+    let mut i = 0;
+    while i + 1 < s.len() {
+        out.push(val(s[i]) << 4 | val(s[i + 1]));
+        i += 2;
+    }
+    out
+}
+
+fn main() {
+    let argv0 = std::env::args_os().next().expect("argv0");
+    let base = std::path::PathBuf::from(&argv0);
+    let with_ext = |ext: &str| -> std::path::PathBuf {
+        let mut s = base.clone().into_os_string();
+        s.push(ext);
+        std::path::PathBuf::from(s)
+    };
+    let cfg_text = std::fs::read_to_string(with_ext(".cfg")).unwrap_or_default();
+    let mut read_mode = "all".to_owned();
+    let mut stderr_bytes = Vec::new();
+    let mut reply = vec![0u8, 0u8];
+    let mut exit_code = 0i32;
+    let mut signal: Option<i32> = None;
+    let mut sleep_ms = 0u64;
+    for line in cfg_text.lines() {
+        let Some((k, v)) = line.split_once('=') else { continue };
+        match k.trim() {
+            "read" => read_mode = v.trim().to_owned(),
+            "stderr_hex" => stderr_bytes = from_hex(v),
+            "reply_hex" => reply = from_hex(v),
+            "exit" => exit_code = v.trim().parse().unwrap_or(0),
+            "signal" => signal = v.trim().parse().ok(),
+            "sleep_ms" => sleep_ms = v.trim().parse().unwrap_or(0),
+            _ => {}
+        }
+    }
+
+    // Count previous invocations through the log.
+    let log_path = with_ext(".log");
+    let previous = std::fs::read_to_string(&log_path).map(|t| t.lines().count()).unwrap_or(0);
+    {
+        let mut log = std::fs::OpenOptions::new()
+            .create(true)
+            .append(true)
+            .open(&log_path)
+            .expect("open log");
+        let _ = writeln!(log, "start pid={} cwd={}", std::process::id(), std::env::current_dir().map(|p| p.display().to_string()).unwrap_or_default());
+    }
+
+    let mut input = Vec::new();
+    match read_mode.as_str() {
+        "none" => {}
+        "all" => {
+            let _ = std::io::stdin().lock().read_to_end(&mut input);
+        }
+        n => {
+            let want: usize = n.parse().unwrap_or(0);
+            let mut buf = vec![0u8; want];
+            let mut got = 0;
+            let mut stdin = std::io::stdin().lock();
+            while got < want {
+                match stdin.read(&mut buf[got..]) {
+                    Ok(0) => break,
+                    Ok(k) => got += k,
+                    Err(_) => break,
+                }
+            }
+            buf.truncate(got);
+            input = buf;
+        }
+    }
+    let stdin_path = if previous == 0 {
+        with_ext(".stdin")
+    } else {
+        with_ext(&format!(".stdin.{}", previous + 1))
+    };
+    let _ = std::fs::write(stdin_path, &input);
+
+    if sleep_ms > 0 {
+        std::thread::sleep(std::time::Duration::from_millis(sleep_ms));
+    }
+    if !stderr_bytes.is_empty() {
+        let _ = std::io::stderr().write_all(&stderr_bytes);
+        let _ = std::io::stderr().flush();
+    }
+    {
+        let mut out = std::io::stdout().lock();
+        let _ = out.write_all(&reply);
+        let _ = out.flush();
+    }
+    if let Some(sig) = signal {
+        unsafe {
+            libc::kill(libc::getpid(), sig);
+        }
+        // in case the signal is ignored
+        std::thread::sleep(std::time::Duration::from_millis(200));
+        std::process::exit(99);
+    }
+    std::process::exit(exit_code);
+}
